@@ -35,8 +35,8 @@ func pick(p *picker, name string, xs []string) string { return xs[p.n(name, len(
 var originNames = map[string][]string{
 	"dns":  {"origin.example.org", "matrix.org", "a-b.c-d.example", "localhost"},
 	"port": {"origin.example.org:8448", "localhost:8800", "matrix.org:443"},
-	"ipv4": {"203.0.113.7", "203.0.113.7:8448"},
-	"ipv6": {"[2001:db8::7]:8448", "[::1]", "[2001:db8:0:0:0:0:0:7]:443"},
+	"ipv4": {"203.0.113.7", "203.0.113.7:8448", "[::1]"}, // literals without letters: one spelling only
+	"ipv6": {"[2001:db8::7]:8448", "[fe80::1]", "[2001:db8:0:0:0:0:0:7]:443"},
 	// one grammar violation each (FedRequest.tla ExtraInvalidOrigins)
 	"inv_brk4":       {"[10.1.2.3]"},
 	"inv_brk4port":   {"[10.1.2.3]:8800"},
@@ -54,6 +54,40 @@ var originNames = map[string][]string{
 }
 
 const otherOrigin = "other.example.net"
+
+// mixedCase is the "mixed" spelling of a lower-case name: upper-case hex digits in an IPv6 literal,
+// alternating letter case in a DNS name (Origin.Example.ORG style names are spelled like this in the wild).
+func mixedCase(name string) string {
+	if strings.HasPrefix(name, "[") {
+		return strings.ToUpper(name)
+	}
+	b := []byte(name)
+	up := true
+	for i, c := range b {
+		if c >= 'a' && c <= 'z' {
+			if up {
+				b[i] = c - 'a' + 'A'
+			}
+			up = !up
+		}
+	}
+	return string(b)
+}
+
+func spell(name, spelling string) string {
+	if spelling == "mixed" {
+		return mixedCase(name)
+	}
+	return name
+}
+
+// caseVariant is the same name in another letter case (the name itself if it has no letters).
+func caseVariant(name string) string {
+	if l := strings.ToLower(name); l != name {
+		return l
+	}
+	return mixedCase(name)
+}
 
 var destP = map[string]string{"dns": "dest.example.com", "port": "dest.example.com:8448", "ipv4": "198.51.100.9", "ipv6": "[2001:db8::9]:8448", "invalid": "dest.example.com"}
 var destS = map[string]string{"dns": "alt.example.com", "port": "alt.example.com:443", "ipv4": "198.51.100.10:8448", "ipv6": "[2001:db8::a]", "invalid": "alt.example.com"}
